@@ -49,6 +49,7 @@ def main() -> int:
     for k, v in u.overrides.items():
         if k != "follow_imports" and v is True:
             flags.append("--" + k.replace("_", "-"))
+    flags += os.environ.get("CONFIRM_EXTRA_FLAGS", "").split()
     states = c03.states_after(u, init, hist)
     checked = [1] + [h[2] for h in hist]
     out = None
